@@ -262,13 +262,43 @@ static char line[2 * INBUF + 256];
 static unsigned char tmpb[INBUF];
 static int want_state = 1, want_mem;
 
+static int compute_ready(struct pollfd *p, nfds_t n)
+{
+    /* readiness (fixed rules, DESIGN §3.3) */
+    int ready = 0;
+    for (nfds_t i = 0; i < n; i++) {
+        p[i].revents = 0;
+        int fd = p[i].fd;
+        if (!IS(fd)) { struct pollfd q = { fd, p[i].events, 0 }; __real_poll(&q, 1, 0); p[i].revents = q.revents; }
+        else {
+            struct vfd *v = vf(fd);
+            if (v->k == K_FREE) p[i].revents = POLLNVAL;
+            else if (v->k == K_LISTEN) { if ((p[i].events & POLLIN) && npending_conn) p[i].revents |= POLLIN; }
+            else if (v->k == K_SOCK && v->cs != CS_OK) {
+                if (v->cs == CS_REFUSED_HUP) p[i].revents |= (p[i].events & (POLLIN | POLLOUT)) | POLLERR | POLLHUP;
+                else if (v->cs == CS_REFUSED_SOERR) p[i].revents |= (p[i].events & POLLOUT);
+                /* CS_INPROGRESS / CS_NONE: nothing */
+            } else {
+                if ((p[i].events & POLLIN) && (v->inlen > 0 || v->peer_closed)) p[i].revents |= POLLIN;
+                /* socketpair peer gone, or full close: HUP at once; tcp FIN / client half-close: only readable-EOF */
+                if (v->peer_closed && (v->k == K_PIPE || v->peer_closed == 2)) p[i].revents |= POLLHUP;
+                if (v->err) p[i].revents |= POLLERR;
+                if ((p[i].events & POLLOUT) && !v->stalled && v->wcap != 0 && !(v->peer_closed && v->k != K_CLIENT)) p[i].revents |= POLLOUT;
+            }
+        }
+        if (p[i].revents) ready++;
+    }
+    return ready;
+}
+
 int __wrap_poll(struct pollfd *p, nfds_t n, int tmo)
 {
     rounds++;
     if (want_state) report_state();
     if (want_mem) { struct mallinfo2 mi = mallinfo2(); tr("MEM inuse=%zu", (size_t)mi.uordblks); }
     int open_fds = 0; for (int i = 0; i < NV; i++) if (V[i].k != K_FREE && V[i].k != K_PIPEH) open_fds++;
-    fprintf(out, "POLL round=%ld now=%lld timeout=%d vfds=%d kids=%d interest=", rounds, now_us - T0, tmo, open_fds, nkids_live);
+    /* descriptors already ready at entry: poll would return at once, no time passes */
+    fprintf(out, "POLL round=%ld now=%lld timeout=%d ready=%d vfds=%d kids=%d interest=", rounds, now_us - T0, tmo, compute_ready(p, n), open_fds, nkids_live);
     for (nfds_t i = 0; i < n; i++) if (IS(p[i].fd)) fprintf(out, "%s%s:%s%s", i ? "," : "", vf(p[i].fd)->k == K_FREE ? "CLOSED" : kname(vf(p[i].fd)), (p[i].events & POLLIN) ? "r" : "", (p[i].events & POLLOUT) ? "w" : "");
     fputc('\n', out); fflush(out);
 
@@ -306,31 +336,7 @@ int __wrap_poll(struct pollfd *p, nfds_t n, int tmo)
     }
     if (feof(stdin)) { tr("STDIN-EOF"); fflush(out); raise(SIGTERM); }
 
-    /* readiness (fixed rules, DESIGN §3.3) */
-    int ready = 0;
-    for (nfds_t i = 0; i < n; i++) {
-        p[i].revents = 0;
-        int fd = p[i].fd;
-        if (!IS(fd)) { struct pollfd q = { fd, p[i].events, 0 }; __real_poll(&q, 1, 0); p[i].revents = q.revents; }
-        else {
-            struct vfd *v = vf(fd);
-            if (v->k == K_FREE) p[i].revents = POLLNVAL;
-            else if (v->k == K_LISTEN) { if ((p[i].events & POLLIN) && npending_conn) p[i].revents |= POLLIN; }
-            else if (v->k == K_SOCK && v->cs != CS_OK) {
-                if (v->cs == CS_REFUSED_HUP) p[i].revents |= (p[i].events & (POLLIN | POLLOUT)) | POLLERR | POLLHUP;
-                else if (v->cs == CS_REFUSED_SOERR) p[i].revents |= (p[i].events & POLLOUT);
-                /* CS_INPROGRESS / CS_NONE: nothing */
-            } else {
-                if ((p[i].events & POLLIN) && (v->inlen > 0 || v->peer_closed)) p[i].revents |= POLLIN;
-                /* socketpair peer gone, or full close: HUP at once; tcp FIN / client half-close: only readable-EOF */
-                if (v->peer_closed && (v->k == K_PIPE || v->peer_closed == 2)) p[i].revents |= POLLHUP;
-                if (v->err) p[i].revents |= POLLERR;
-                if ((p[i].events & POLLOUT) && !v->stalled && v->wcap != 0 && !(v->peer_closed && v->k != K_CLIENT)) p[i].revents |= POLLOUT;
-            }
-        }
-        if (p[i].revents) ready++;
-    }
-    return ready;
+    return compute_ready(p, n);
 }
 
 int pm_main(int, char **);
@@ -342,6 +348,11 @@ int main(int argc, char **argv)
     static char obuf[1 << 16]; setvbuf(stdout, obuf, _IOFBF, sizeof obuf);
     if (getenv("PMSIM_MEM")) want_mem = 1;
     if (getenv("PMSIM_NOSTATE")) want_state = 0;
+    if (getenv("PMSIM_PLAN")) {            /* outcomes of the connect() calls made before the first poll (dev_initial_connect) */
+        char *s = strdup(getenv("PMSIM_PLAN"));
+        for (char *w = strtok(s, ","); w && cplan_n < 1024; w = strtok(NULL, ","))
+            cplan[cplan_n++] = !strcmp(w, "ok-now") ? CP_OK_NOW : !strcmp(w, "syncfail") ? CP_SYNCFAIL : !strcmp(w, "refuse-hup") ? CP_REFUSE_HUP : !strcmp(w, "refuse-soerr") ? CP_REFUSE_SOERR : !strcmp(w, "pending") ? CP_INPROGRESS_PENDING : CP_INPROGRESS_OK;
+    }
     signal(SIGABRT, on_abort);
     atexit(at_exit);
     char *av[16]; int ac = 0;
